@@ -2198,14 +2198,16 @@ impl Value {
 
 impl<T: ArrayValue> Array<T> {
     pub(crate) fn first_min_index(&self, env: &Uiua) -> UiuaResult<f64> {
-        let fill = env.ctx().scalar_fill::<f64>();
-        if self.rank() == 0 || self.meta.is_sorted_up() && fill.is_err() {
+        if self.rank() == 0 {
             return Ok(0.0);
         }
         if self.row_count() == 0 {
-            return fill
+            return (env.ctx().scalar_fill::<f64>())
                 .map(|fv| fv.value)
                 .map_err(|e| env.error(format!("Cannot get min index of an empty array{e}")));
+        }
+        if self.meta.is_sorted_up() {
+            return Ok(0.0);
         }
         let index = self
             .row_slices()
@@ -2253,14 +2255,16 @@ impl<T: ArrayValue> Array<T> {
         Ok(index as f64)
     }
     pub(crate) fn last_max_index(&self, env: &Uiua) -> UiuaResult<f64> {
-        let fill = env.ctx().scalar_fill::<f64>();
-        if self.rank() == 0 || self.meta.is_sorted_up() && fill.is_err() {
+        if self.rank() == 0 {
             return Ok(0.0);
         }
         if self.row_count() == 0 {
-            return fill
+            return (env.ctx().scalar_fill::<f64>())
                 .map(|fv| fv.value)
                 .map_err(|e| env.error(format!("Cannot get max index of an empty array{e}")));
+        }
+        if self.meta.is_sorted_up() {
+            return Ok(0.0);
         }
         let index = self
             .row_slices()
